@@ -61,11 +61,10 @@ def match_table(ctx, body, enum_suffix='SecurityPolicy', max_steps=12):
     for dst, lab in edges:
         v = value_from(dst)
         if lab[0] == 'val':
-            i = int(lab[1])
-            if names and i < len(names):
-                out[names[i]] = v
+            n = names.get(lab[1]) if names else None
+            if n is not None:
+                out[n] = v
         else:
-            for i, n in enumerate(names or []):
-                if str(i) not in lab[1]:
-                    out.setdefault(n, v)
+            for n in (names.others(lab[1]) if names else []):
+                out.setdefault(n, v)
     return out
